@@ -176,8 +176,20 @@ def _eval_groups(chk, stage, good, mk):
 
 def cxl(h): return '(%s, %s)' % (F(h[0]), F(h[1]))
 
+def junc_probes(rng):
+    """three wires, the middle one moved by a transformation of its tag: away from its junction, not at all, onto the top of the
+    third wire"""
+    out = []
+    for v_, fam in (([0.0, 0.6, 0.0], 'probe-tagged-move-away'), ([0.0, 0.0, 0.0], 'probe-tagged-move-zero'), ([1.5, 0.0, 0.0], 'probe-tagged-move-onto')):
+        ws = [gen.wire(4, [0.0, 0.0, 0.5], [0.0, 0.0, 2.5], 0.001, tag=1), gen.wire(4, [0.0, 0.0, 2.5], [1.2, 0.0, 2.9], 0.001, tag=2),
+              gen.wire(4, [1.5, 0.0, 0.5], [1.5, 0.0, 2.5], 0.001, tag=3)]
+        out.append(dict(id=10 ** 6 + len(out), seed=rng.randrange(10 ** 9),
+                        spec=dict(f=30.0, wires=ws, media=None, family=fam, tagmode='explicit', sources=[], loads=[],
+                                  transforms=[dict(op='translate', key=1.0, v=v_, tag=2)])))
+    return out
+
 def run_junc(chk, rng, ncases, grounds=(None, None, 'ideal')):
-    cases = gen_cases(rng, ncases, grounds)
+    cases = junc_probes(rng) + gen_cases(rng, ncases, grounds)
     good, errs = _run_generic(chk, 'topo.junc', cases, 'junc')
     if not all(vo_ok(f) for f in ('Corr/TopoDriver.v', 'Model/Report.v', 'Model/Topology.v')):
         chk.tie_broken('correspondence', 'junc', 'model (Model/Report.v) does not compile')
